@@ -1,16 +1,8 @@
 (* C01Run.v — executable verdicts for C01 / C02 / C17 / C12 (router level): histories over Router,
    observed after every operation on a panel of probe requests. *)
-Require Import RIO.Base RIO.Route RIO.Layer RIO.Tree RIO.TreeInst RIO.Rx RIO.Matchers RIO.RouterSpec.
+Require Import RIO.Base RIO.Route RIO.Layer RIO.Tree RIO.TreeInst RIO.Rx RIO.Matchers RIO.RouterSpec RIO.RouterHist.
 Close Scope N_scope.
 Open Scope nat_scope.
-
-Inductive rop :=
-| RIns (r : route)
-| RRem (id : str)
-| RBatch (ids : list str)
-| RChange (added updated : list route) (removed : list str)
-| RCache (limit : option N)
-| RCloneMut (ops : list rop).       (* clone the router, apply [ops] to the clone, keep observing the original *)
 
 Record rcfg := { cf_ic_host : bool; cf_ic_path : bool; cf_always : bool }.
 
@@ -84,16 +76,12 @@ Definition sp_match (L : list route) (q : request) : list route :=
   spec_match lw (rx_is_match false) (fun re s => rx_is_match (cf_ic_host cfg) (leaf_regex re) s)
              (fun re s => rx_is_match (cf_ic_path cfg) (leaf_regex re) s) (cf_always cfg) L q.
 
-Definition live_step (L : list route) (o : rop) : list route * N :=
-  let without ids := filter (fun r => negb (mem_str (rt_id r) ids)) L in
-  match o with
-  | RIns r => (filter (fun x => negb (str_eqb (rt_id x) (rt_id r))) L ++ [r], 0%N)
-  | RRem id => (without [id], rmcode (match filter (fun r => str_eqb (rt_id r) id) L with r :: _ => Some r | [] => None end))
-  | RBatch ids => (without ids, 0%N)
-  | RChange a u d => (without (d ++ map rt_id u) ++ u ++ a, 0%N)
-  | RCache _ => (L, 0%N)
-  | RCloneMut _ => (L, 0%N)
-  end.
+Definition live_step_rc (L : list route) (o : rop) : list route * N :=
+  (live_step L o,
+   match o with
+   | RRem id => rmcode (match filter (fun r => str_eqb (rt_id r) id) L with r :: _ => Some r | [] => None end)
+   | _ => 0%N
+   end).
 
 Definition best_prio (l : list route) : N :=
   match l with
@@ -111,7 +99,7 @@ Definition observe_spec (with_trace : bool) (L : list route) (rc : N) (probes : 
 Fixpoint run_spec (with_trace : bool) (L : list route) (ops : list rop) (probes : list request) : list (list (list N)) :=
   match ops with
   | [] => []
-  | o :: ops' => let '(L', rc) := live_step L o in observe_spec with_trace L' rc probes :: run_spec with_trace L' ops' probes
+  | o :: ops' => let '(L', rc) := live_step_rc L o in observe_spec with_trace L' rc probes :: run_spec with_trace L' ops' probes
   end.
 End Run.
 
